@@ -638,7 +638,9 @@ def m_dict_items(eng, s, d, args, kw):
 def m_dict_keys(eng, s, d, args, kw):
     h = s.heap
     s.assume(*h.dict_wf(d.ref))
-    return [(SeqView(h.dlen(d.ref), h.dkeys(d.ref)), s)]
+    v = SeqView(h.dlen(d.ref), h.dkeys(d.ref))
+    v.keys_of = d.ref           # set-like comparisons of a keys view (d.keys() >= {...}) need the dictionary
+    return [(v, s)]
 
 
 def m_dict_values(eng, s, d, args, kw):
